@@ -28,6 +28,8 @@ TECHNIQUE = 'stateless bounded-exhaustive exploration of the real operator again
 INNER = [['tap', 'h'], ['to_list'], ['tap', 't']]
 CONFIGS = [(a, i, c, inc) for a in (None, 3) for i in (None, 2) for c in (None, 'closing_mod10') for inc in (True, False)
            if not (c is None and inc is False)]
+# a timeout of zero is a timeout (every item is "at least 0 after" its reference), not the absence of one
+CONFIGS += [(0, None, None, True), (None, 0, None, True), (0, 2, 'closing_mod10', True), (3, 0, 'closing_mod10', False)]
 
 EPOCH = datetime.datetime(2020, 1, 1)
 opspecs.FUNCS.setdefault('ts_dt', lambda x: EPOCH + datetime.timedelta(seconds=(x // 10) % 100))
